@@ -325,6 +325,20 @@ def translate_sync():
     info["mpRetryDue"] = c
     return defs, info
 
+def translate_proposer():
+    """the ACK wait at the end of Proposer::make_block (consensus/src/proposer.rs)"""
+    pr = strip_comments(open(f"{REPO}/consensus/src/proposer.rs").read())
+    body = fn_body(pr, "make_block")
+    c = pick(conds(body, "if"), [r'total_stake', r'quorum_threshold'], "Proposer::make_block")
+    c2 = re.sub(r'self\s*\.\s*committee\s*\.\s*quorum_threshold\s*\(\s*\)', 'QUORUM', c)
+    t = parse(c2, {"total_stake": "total", "QUORUM": "quorum"})
+    n = norm(body)
+    for pat, what in [(r'let mut total_stake = self\.committee\.stake\(&self\.name\);', "`let mut total_stake = self.committee.stake(&self.name)`"),
+                      (r'while let Some\(stake\) = wait_for_quorum\.next\(\)\.await \{ total_stake \+= stake;', "`while let Some(stake) = wait_for_quorum.next().await { total_stake += stake; …`"),
+                      (r'let stake = self\.committee\.stake\(&name\);', "`let stake = self.committee.stake(&name)` for each waiter")]:
+        if not re.search(pat, n): raise NotTranslatable("Proposer::make_block: " + what + " not found")
+    return [("proposerQuorum", ["total", "quorum"], "prop", lean(t, "prop"), f"Proposer::make_block: the wait for ACKs ends  (`if {c}`)")], {"proposerQuorum": c}
+
 def translate_timer():
     """the deadline `Timer::reset` sets (consensus/src/timer.rs) and the places `Core` resets its timer"""
     tm = strip_comments(open(f"{REPO}/consensus/src/timer.rs").read())
@@ -386,6 +400,8 @@ def main():
         defs += d4; info.update(i4)
         d5, i5 = translate_timer()
         defs += d5; info.update(i5)
+        d6, i6 = translate_proposer()
+        defs += d6; info.update(i6)
     except NotTranslatable as e:
         print("NOT-TRANSLATABLE: " + str(e)); sys.exit(3)
     changed = write_if_changed(out, render(defs))
